@@ -3,8 +3,8 @@
 (A) every held object of every base model of the grammar, before any solve: eval / eval_dual must raise ValueError.
 (B) all histories up to a depth over {real solve, solver answers 'no value' / 'error' (deviations), edits that make the
     model infeasible / unbounded and back, objects created after a solve from new leaves, MOSEK-path solve} on two
-    base models; after every history every accessor of every object is compared with a two-state reference model
-    (has a current solution / has none).
+    base models; after every history every accessor of every object - and, before and after EVERY step, every accessor
+    of the objects held from the start - is compared with a two-state reference model (has a current solution / has none).
 (C) every unbounded / infeasible model of the grammar x back-end x solver: solve must return None.
 (D) invalid option values must raise.
 """
@@ -208,7 +208,16 @@ def run_history(mname, hist):
     has_solution = False
     extra, new_ids = [], set()
     probs = []
+    # objects the user holds from the start and READS AFTER EVERY STEP (a value read once must not survive a failed solve)
+    held = [o for o in all_objects(ctx) if not o[0].startswith(("classconstraint", "classlmi", "partitionconstraint"))]
+    step_probs = []
+
+    def read_all():
+        sent_now = ({id(c) for c in pep._list_of_constraints_sent_to_wrapper} | {id(m) for m in pep._list_of_psd_sent_to_wrapper}) if has_solution else set()
+        pp, _ = judge_objects(held + extra, has_solution, sent_now, "history", new_ids)
+        step_probs.extend(pp)
     for op in hist:
+        read_all()
         feasible = contradiction not in pep.list_of_constraints
         bounded = init in pep.list_of_constraints
         if op in ("solve", "solve_mosek", "solve_trace"):
@@ -268,7 +277,8 @@ def run_history(mname, hist):
     objs = all_objects(ctx, extra)
     p2, outc = judge_objects(objs, has_solution, sent if has_solution else set(), "history", new_ids)
     p2 += judge_tables(ctx, has_solution, "history")
-    return probs + p2, outc, "solved" if has_solution else "unsolved"
+    read_all()
+    return probs + step_probs + p2, outc, "solved" if has_solution else "unsolved"
 
 
 # ---- (C) ----------------------------------------------------------------------------------------------------------
@@ -305,8 +315,15 @@ INVALID = [
     ("dimension_reduction_heuristic", "Trace"), ("dimension_reduction_heuristic", "logdet"),
     ("dimension_reduction_heuristic", "logdetx"), ("dimension_reduction_heuristic", "rank"),
     ("dimension_reduction_heuristic", "trace2"), ("dimension_reduction_heuristic", 1),
+    ("return_primal_or_dual", "prim"), ("return_primal_or_dual", "d"), ("return_primal_or_dual", "al"), ("return_primal_or_dual", "ualp"),
+    ("return_primal_or_dual", "dual "), ("return_primal_or_dual", ["dual"]),
+    ("dimension_reduction_heuristic", "logdet1.5"), ("dimension_reduction_heuristic", "tr"),
     ("notion", "abs"), ("notion", None), ("notion", "Relative"),
     ("opt", "PD_gapIV"), ("opt", "pd_gapi"), ("opt", None),
+    # the same invalid values next to boundary values of the step's other arguments (a shortcut taken before the validation)
+    ("notion", "abs", {"epsilon": 0}), ("notion", None, {"epsilon": 0}), ("notion", "Relative", {"epsilon": 0.0, "gamma": 0}),
+    ("notion", "relativ", {"epsilon": 2}), ("notion", "", {"gamma": 0}),
+    ("opt", "PD_gapIV", {"gamma": 0}), ("opt", None, {"gamma": 0}), ("opt", "PD_gap", {"gamma": 2}),
     ("d", 0), ("d", -1), ("d", 1.5), ("d", "2"), ("d", None),
     ("sense", "leq"), ("sense", None), ("sense", "Equality"),
     ("solver", "NOT_A_SOLVER"), ("solver", "CLARABLE"), ("solver", ""), ("solver", 3), ("solver", "scs "),
@@ -314,7 +331,8 @@ INVALID = [
 
 
 def run_invalid(case, spec=None, solver="CLARABEL"):
-    name, val = case
+    name, val = case[0], case[1]
+    aux = dict(case[2]) if len(case) > 2 else {}
     ctx = models.build(spec or HIST_MODELS["gd"])
     from PEPit.primitive_steps import inexact_gradient_step, inexact_proximal_step
     from PEPit.constraint import Constraint
@@ -327,9 +345,9 @@ def run_invalid(case, spec=None, solver="CLARABEL"):
         elif name == "solver":
             out = ctx.pep.solve(verbose=0, solver=val)
         elif name == "notion":
-            out = inexact_gradient_step(ctx.points["x0"], ctx.funcs["f"], 1.0, 0.1, notion=val)
+            out = inexact_gradient_step(ctx.points["x0"], ctx.funcs["f"], aux.get("gamma", 1.0), aux.get("epsilon", 0.1), notion=val)
         elif name == "opt":
-            out = inexact_proximal_step(ctx.points["x0"], ctx.funcs["f"], 1.0, opt=val)
+            out = inexact_proximal_step(ctx.points["x0"], ctx.funcs["f"], aux.get("gamma", 1.0), opt=val)
         elif name == "d":
             out = ctx.pep.declare_block_partition(d=val)
         elif name == "sense":
@@ -338,7 +356,8 @@ def run_invalid(case, spec=None, solver="CLARABEL"):
         return [], {"invalid:%s:raised:%s" % (name, type(e).__name__): 1}
     if name in ("return_primal_or_dual", "dimension_reduction_heuristic", "solver") and out is None:
         return [], {"invalid:%s:no-value" % name: 1}     # the solver found nothing: nothing was fabricated either
-    return [("invalid-option-accepted:%s:%r" % (name, val), "%s=%r was accepted and returned %r" % (name, val, out if isinstance(out, float) else type(out).__name__))], {}
+    return [("invalid-option-accepted:%s:%r" % (name, val), "%s=%r%s was accepted and returned %r"
+             % (name, val, " (with %s)" % aux if aux else "", out if isinstance(out, float) else type(out).__name__))], {}
 
 
 def invalid_cases(tier):
